@@ -250,10 +250,11 @@ fn report(prop: &str, agg: &mut Agg, idx: u64, coord: &str, cfg: &HistCfg, r: &H
     if r.distinct_orders_max > 1 {
         agg.multi_order_tables += 1;
     }
-    let opstr = ops_to_string(&r.ops);
+    let need_str = !cfg.light || !r.violations.is_empty() || r.inconclusive.is_some() || agg.samples.len() < 3;
+    let opstr = if need_str { ops_to_string(&r.ops) } else { String::new() };
     if nontrivial(prop, r) {
         agg.nontrivial += 1;
-        agg.distinct.insert(if r.ops.is_empty() { hash_str(coord) } else { hash_str(&opstr) });
+        agg.distinct.insert(if r.ops.is_empty() || !need_str { hash_str(coord) } else { hash_str(&opstr) });
         if agg.samples.len() < 3 {
             let extra = DIFF_SAMPLE.with(|d| d.borrow().get(agg.samples.len()).cloned().unwrap_or_default());
             agg.samples.push(format!("{} :: {}{}", coord, opstr, extra));
@@ -400,6 +401,8 @@ fn cmd_run(a: &Args) -> i32 {
             check_mem: !a.flag("no-mem"),
             value_offset,
             hard_exit: !a.flag("continue-after-hard"),
+            light: a.flag("light"),
+            sweep_every: a.u64("sweep-every", 1) as usize,
         };
         let coord_pre = match &space {
             Some(sp) => format!("enum n={} base={} full={} idx={}", sp.n, sp.pair_base, sp.full_only, this),
@@ -737,6 +740,8 @@ fn cmd_child(a: &Args) -> i32 {
         check_mem: true,
         value_offset,
         hard_exit: false,
+        light: a.flag("light"),
+        sweep_every: 1,
     };
     let mut it = ops.into_iter();
     let mut g = |_: &World| it.next();
@@ -812,6 +817,8 @@ fn cmd_replay(a: &Args) -> i32 {
         check_mem: !a.flag("no-mem"),
         value_offset,
         hard_exit: false,
+        light: false,
+        sweep_every: 1,
     };
     let mut it = ops.into_iter();
     let mut g = |_: &World| it.next();
